@@ -141,15 +141,33 @@ def r_agg_analytics(ck: Checker) -> None:
         got = {unparse(ret.value) for ret, st in it.returns if enclosing_loop(func, ret) is loops[0]}  # type: ignore[arg-type]
         ck.add(f"{name}: non-numeric bound decides nothing", not got, func, loops[0], f"returns inside the loop: {sorted(got)}", "")
     init = ck.func(f"{A}.__init__")
-    it = ck.interp(init)
-    apps = [c for c in attr_calls(init, "append") if unparse(c.func.value) == "self.bounds"]  # type: ignore[attr-defined]
-    ck.need(len(apps) == 2, "left and right guard are recorded as bounds")
     node = init.params()[1]
-    txts = [unparse(it.expand(c.args[0], it.states(c)[0])).replace(" ", "") for c in apps]
-    ok_l = f"Guard(rhs2lhs_comparison({node}.left_guard.comparison),{node}.left_guard.term)" in txts
-    ok_r = f"{node}.right_guard" in txts
-    ck.add("left guard is converted to a right-hand bound", ok_l, init, apps[0], f"bounds: {txts}", "`1 >= agg` is `agg <= 1`: without the conversion `{..} 1` on the left would be read as `agg >= 1`")
-    ck.add("right guard is taken as is", ok_r, init, apps[1], f"bounds: {txts}", "")
+    sites_b = [c for c in attr_calls(init, "append") if unparse(c.func.value) == "self.bounds"]  # type: ignore[attr-defined]
+    sites_e = [c for c in attr_calls(init, "append") if unparse(c.func.value) == "self.equal_variable_bound"]  # type: ignore[attr-defined]
+    ck.need(len(sites_b) >= 2 and len(sites_e) >= 2, "left and right guard are recorded as bounds or as the assigned variable")
+    # TABLE (side, operator, term kind) -> what is recorded: `V = agg` / `agg = V` binds V, everything else is a bound
+    # (a left guard mirrored to the right-hand reading)
+    for side in ("left", "right"):
+        g = f"{node}.{side}_guard"
+        for op in enum_members("ComparisonOperator"):
+            for kind in ("Variable", "SymbolicTerm", "BinaryOperation"):
+                pins = Pins.of(vals={f"{g}.ast_type": "ASTType.Guard", f"{g}.comparison": op, f"{g}.term.ast_type": f"ASTType.{kind}"}, facts={g: True, f"{g} is None": False})
+                itp = ck.interp(init, pins)
+                got = set()
+                for c in sites_b + sites_e:
+                    for st_ in itp.states(c):
+                        txt = unparse(itp.expand(c.args[0], st_)).replace(" ", "")
+                        if f"{side}_guard" in txt:
+                            got.add(("binds " if c in sites_e else "bound ") + txt)
+                if op.endswith(".Equal") and kind == "Variable":
+                    want = {f"binds {g}.term.name"}
+                elif side == "left":
+                    want = {f"bound Guard(rhs2lhs_comparison({g}.comparison),{g}.term)"}
+                else:
+                    want = {f"bound {g}"}
+                ck.add(f"{side} guard `{op.split('.')[1]}` against a {kind}", got == want, init, init.node, f"records {sorted(got) or 'nothing'}; expected {sorted(want)}",
+                       "only `V = agg` assigns the aggregate's value to V; any other guard is a test (`L > #max{..}` read as an assignment makes the chain rewrite derive nothing, a guard that is recorded nowhere lets inline unfold a constrained aggregate as if it were free), and a left guard `2 >= agg` means `agg <= 2`, not `agg < 2`")
+    ck.notes["C13.analytics.rows"] = 2 * len(enum_members("ComparisonOperator")) * 3
 
 
 def r_element_passes(ck: Checker) -> None:
